@@ -204,7 +204,9 @@ func (ab ActionBuffer) Poll() *CosiAction {
 }
 
 func (chain *Chain) loadIdentity() *CNode {
-	now := clock.NowUnixNano()
+	// membership records are loaded beyond the local clock, and a finalized
+	// operation may be stamped slightly ahead of it
+	now := clock.NowUnixNano() * 2
 	for _, n := range chain.node.NodesListWithoutState(now, false) {
 		if chain.ChainId == n.IdForNetwork {
 			return n
